@@ -19,6 +19,7 @@ pub struct Profile {
     pub w_advance: u32,
     pub w_kill: u32,
     pub max_phrases: usize,
+    pub w_burst: u32,
 }
 
 fn sel() -> impl Strategy<Value = u16> {
@@ -71,6 +72,15 @@ fn phrase(p: Profile) -> impl Strategy<Value = Vec<Op>> {
     }
     if p.w_stop > 0 {
         alts.push((p.w_stop, Just(vec![Op::Stop]).boxed()));
+    }
+    if p.w_burst > 0 {
+        alts.push((p.w_burst, any::<u8>().prop_map(|n| vec![Op::CtlBurst { n }]).boxed()));
+        // a burst with a connection behind it: the final state is "resumed"
+        alts.push((p.w_burst, (any::<u8>(), sel()).prop_map(|(n, l)| vec![Op::CtlBurst { n }, Op::Connect { l }, Op::Quiesce]).boxed()));
+        if p.w_stop > 0 {
+            // a stop queued behind a burst of other commands
+            alts.push((p.w_burst, any::<u8>().prop_map(|n| vec![Op::CtlBurst { n }, Op::Stop, Op::Quiesce]).boxed()));
+        }
     }
     if p.w_inject > 0 {
         alts.push((p.w_inject, (sel(), errkind()).prop_map(|(l, kind)| vec![Op::Inject { l, kind }]).boxed()));
@@ -138,15 +148,17 @@ pub fn strategy(p: Profile, deep: bool) -> impl Strategy<Value = Case> {
         })
 }
 
-pub const P_C01: Profile = Profile { max_workers: 3, limits: &[1, 2, 3], uds: true, two_listeners: true, w_connect: 5, w_race: 1, w_ctl: 1, w_stop: 1, w_inject: 1, w_advance: 1, w_kill: 1, max_phrases: 10 };
-pub const P_C02: Profile = Profile { max_workers: 3, limits: &[1, 2, 3, 4], uds: false, two_listeners: true, w_connect: 6, w_race: 2, w_ctl: 1, w_stop: 0, w_inject: 0, w_advance: 0, w_kill: 0, max_phrases: 10 };
-pub const P_C03: Profile = Profile { max_workers: 3, limits: &[1, 1, 1, 2, 2, 2, 3, 4], uds: false, two_listeners: true, w_connect: 5, w_race: 2, w_ctl: 1, w_stop: 0, w_inject: 0, w_advance: 0, w_kill: 0, max_phrases: 10 };
-pub const P_C04_SAT: Profile = Profile { max_workers: 4, limits: &[1, 2, 3], uds: false, two_listeners: true, w_connect: 6, w_race: 0, w_ctl: 1, w_stop: 0, w_inject: 0, w_advance: 0, w_kill: 0, max_phrases: 10 };
-pub const P_C04_UNSAT: Profile = Profile { max_workers: 4, limits: &[64], uds: false, two_listeners: true, w_connect: 6, w_race: 1, w_ctl: 1, w_stop: 0, w_inject: 0, w_advance: 0, w_kill: 0, max_phrases: 10 };
-pub const P_C05: Profile = Profile { max_workers: 2, limits: &[64, 64, 1, 2], uds: true, two_listeners: true, w_connect: 4, w_race: 0, w_ctl: 3, w_stop: 1, w_inject: 3, w_advance: 3, w_kill: 0, max_phrases: 9 };
-pub const P_C04_FAULT: Profile = Profile { max_workers: 4, limits: &[1, 2], uds: false, two_listeners: false, w_connect: 6, w_race: 0, w_ctl: 0, w_stop: 0, w_inject: 0, w_advance: 0, w_kill: 3, max_phrases: 10 };
-pub const P_C03_FAULT: Profile = Profile { max_workers: 3, limits: &[1, 1, 2, 3], uds: false, two_listeners: false, w_connect: 5, w_race: 1, w_ctl: 1, w_stop: 0, w_inject: 0, w_advance: 0, w_kill: 3, max_phrases: 10 };
-pub const P_C08: Profile = Profile { max_workers: 3, limits: &[1, 2, 3], uds: false, two_listeners: false, w_connect: 5, w_race: 1, w_ctl: 1, w_stop: 0, w_inject: 0, w_advance: 0, w_kill: 4, max_phrases: 9 };
+pub const P_C01: Profile = Profile { max_workers: 3, limits: &[1, 2, 3], uds: true, two_listeners: true, w_connect: 5, w_race: 1, w_ctl: 1, w_stop: 1, w_inject: 1, w_advance: 1, w_kill: 1, max_phrases: 10, w_burst: 0 };
+pub const P_C02: Profile = Profile { max_workers: 3, limits: &[1, 2, 3, 4], uds: false, two_listeners: true, w_connect: 6, w_race: 2, w_ctl: 1, w_stop: 0, w_inject: 0, w_advance: 0, w_kill: 0, max_phrases: 10, w_burst: 0 };
+pub const P_C03: Profile = Profile { max_workers: 3, limits: &[1, 1, 1, 2, 2, 2, 3, 4], uds: false, two_listeners: true, w_connect: 5, w_race: 2, w_ctl: 1, w_stop: 0, w_inject: 0, w_advance: 0, w_kill: 0, max_phrases: 10, w_burst: 0 };
+pub const P_C04_SAT: Profile = Profile { max_workers: 4, limits: &[1, 2, 3], uds: false, two_listeners: true, w_connect: 6, w_race: 0, w_ctl: 1, w_stop: 0, w_inject: 0, w_advance: 0, w_kill: 0, max_phrases: 10, w_burst: 0 };
+pub const P_C04_UNSAT: Profile = Profile { max_workers: 4, limits: &[64], uds: false, two_listeners: true, w_connect: 6, w_race: 1, w_ctl: 1, w_stop: 0, w_inject: 0, w_advance: 0, w_kill: 0, max_phrases: 10, w_burst: 0 };
+pub const P_C05: Profile = Profile { max_workers: 2, limits: &[64, 64, 1, 2], uds: true, two_listeners: true, w_connect: 4, w_race: 0, w_ctl: 3, w_stop: 1, w_inject: 3, w_advance: 3, w_kill: 0, max_phrases: 9, w_burst: 1 };
+pub const P_C06: Profile = Profile { max_workers: 2, limits: &[64, 2], uds: true, two_listeners: true, w_connect: 4, w_race: 0, w_ctl: 2, w_stop: 3, w_inject: 0, w_advance: 0, w_kill: 0, max_phrases: 8, w_burst: 3 };
+pub const P_C04_FAULT: Profile = Profile { max_workers: 4, limits: &[1, 2], uds: false, two_listeners: false, w_connect: 6, w_race: 0, w_ctl: 0, w_stop: 0, w_inject: 0, w_advance: 0, w_kill: 3, max_phrases: 10, w_burst: 0 };
+pub const P_C04_FAULT_UNSAT: Profile = Profile { max_workers: 4, limits: &[64], uds: false, two_listeners: false, w_connect: 8, w_race: 0, w_ctl: 0, w_stop: 0, w_inject: 0, w_advance: 0, w_kill: 3, max_phrases: 10, w_burst: 0 };
+pub const P_C03_FAULT: Profile = Profile { max_workers: 3, limits: &[1, 1, 2, 3], uds: false, two_listeners: false, w_connect: 5, w_race: 1, w_ctl: 1, w_stop: 0, w_inject: 0, w_advance: 0, w_kill: 3, max_phrases: 10, w_burst: 0 };
+pub const P_C08: Profile = Profile { max_workers: 3, limits: &[1, 2, 3], uds: false, two_listeners: false, w_connect: 5, w_race: 1, w_ctl: 1, w_stop: 0, w_inject: 0, w_advance: 0, w_kill: 4, max_phrases: 9, w_burst: 0 };
 
 pub fn nontrivial(prop: Prop, c: &Case, labels: &[&'static str]) -> bool {
     let has = |l: &str| labels.contains(&l);
@@ -156,6 +168,7 @@ pub fn nontrivial(prop: Prop, c: &Case, labels: &[&'static str]) -> bool {
         Prop::C03 => has("finish-while-saturated-with-backlog"),
         Prop::C04 => c.workers >= 2 && has("dispatches>W"),
         Prop::C05 => has("pause") || has("inject-fatal") || has("inject-per-connection"),
+        Prop::C06 => has("stop"),
         Prop::C08 => has("fault-discovered"),
     }
 }
